@@ -65,8 +65,9 @@ class PaneBase:
     ):
         old_params = getattr(cls, '__parameters__', ())
         super().__init_subclass__(*args, **kwargs)
-        # parameters forwarded by a base (G[int, V]) may be declared again (Generic[V]): keep each once
-        setattr(cls, '__parameters__', tuple(dict.fromkeys(old_params + getattr(cls, '__parameters__', ()))))
+        # parameters forwarded by a base (G[int, V]) may be declared again (Generic[V]): keep each once,
+        # the declared ones first and in their declared order (Generic[W, V] is subscripted as [W, V])
+        setattr(cls, '__parameters__', tuple(dict.fromkeys(getattr(cls, '__parameters__', ()) + old_params)))
 
         if rename is not None:
             if in_rename is not None or out_rename is not None:
@@ -457,10 +458,12 @@ def _process(cls: t.Type[PaneBase], opts: PaneOptions):
             continue  # not a pane dataclass
         cls_specs = getattr(base, PANE_INFO).specs
 
-        # apply typevar replacements
-        bound_vars = t.cast(t.Mapping[t.Union[t.TypeVar, ParamSpec], type], getattr(base, PANE_BOUNDVARS, {}))
+        # apply typevar replacements: those bound by `base` itself (not the ones it inherits,
+        # which were applied further up), to the fields `base` has (not to those of unrelated bases)
+        bound_vars = t.cast(t.Mapping[t.Union[t.TypeVar, ParamSpec], type], base.__dict__.get(PANE_BOUNDVARS, {}))
+        base_fields = {field.name for field in getattr(base, PANE_INFO).fields}
         specs.update(cls_specs)
-        specs = {k: spec.replace_typevars(bound_vars) for (k, spec) in specs.items()}
+        specs = {k: spec.replace_typevars(bound_vars) if k in base_fields else spec for (k, spec) in specs.items()}
 
     annotations = get_type_hints(cls)
     kw_only = opts.kw_only  # current kw_only state
@@ -483,8 +486,8 @@ def _process(cls: t.Type[PaneBase], opts: PaneOptions):
         spec.kw_only |= kw_only
         cls_specs[name] = spec
 
-    # apply typevar replacements
-    bound_vars = getattr(cls, PANE_BOUNDVARS, {})
+    # apply typevar replacements (of `cls` itself: variables bound by a base class are not bound in `cls`'s own fields)
+    bound_vars = cls.__dict__.get(PANE_BOUNDVARS, {})
     specs.update(cls_specs)
     specs = {k: spec.replace_typevars(bound_vars) for (k, spec) in specs.items()}
 
